@@ -862,9 +862,11 @@ func (p *sshFxpReadPacket) getDataSlice(alloc *allocator, orderID uint32, maxTxP
 		dataLen = maxTxPacket
 	}
 
-	if alloc != nil {
+	if alloc != nil && dataLen <= maxMsgLength {
 		// GetPage returns a slice with capacity = maxMsgLength this is enough to avoid new allocations in
-		// sshFxpDataPacket.MarshalBinary
+		// sshFxpDataPacket.MarshalBinary.
+		// A read larger than a page (possible with WithMaxTxPacket above 256 KiB) cannot use one:
+		// it is served from a freshly allocated slice, exactly as without the allocator.
 		return alloc.GetPage(orderID)[:dataLen]
 	}
 
